@@ -156,7 +156,8 @@ def getattr(I, st, v, name):
         def _rx(I, st, a, k):
             if len(a) != 1 or not isinstance(a[0], str):
                 raise Unsupported("regular expression applied to a symbolic string")
-            yield st, (ReMatch() if _b.getattr(v.rx, name)(a[0]) is not None else None)
+            # the string is concrete: Python's own re.Match object (truthy; group()/groups()/span() through re_method) or None
+            yield st, _b.getattr(v.rx, name)(a[0])
 
         yield st, bi("re.Pattern." + name, _rx)
         return
